@@ -603,6 +603,483 @@ theorem newton_postcondition (P1 S r : V3 K) (sj sag eps : K)
   · simp only [Generated.C19.newtonScale]
     exact le_max_left _ _
 
+/-! ## session 3: closed forms the Newton iteration must agree with (planes: convergence PROVED; conics: exact root) -/
+
+/-- along any ray the conic's implicit equation is the quadratic `A s² + 2 B s + C` (so a ray meets a conic in at most two points) -/
+theorem conic_ray_quadratic (c k s : K) (P S : V3 K) :
+    conicImplicit c k (V3.add P (V3.smul s S)) = conicA c k S * (s * s) + 2 * conicB c k P S * s + conicC c k P := by
+  simp only [conicImplicit, conicA, conicB, conicC, V3.add, V3.smul]
+  ring
+
+/-- the closed-form intersection `P + s S`, `s = C / (√(B² − AC) − B)`, lies on the conic `cρ² − 2z + (1+κ)c z² = 0` — every
+curvature (the plane `c = 0` included), conic constant, ray origin and direction for which the discriminant is non-negative -/
+theorem conic_closed_form_hit (sqrt : K → K) (hs : ∀ x, 0 ≤ x → sqrt x * sqrt x = x)
+    (c k : K) (P S : V3 K)
+    (hD : 0 ≤ conicB c k P S * conicB c k P S - conicA c k S * conicC c k P)
+    (hden : sqrt (conicB c k P S * conicB c k P S - conicA c k S * conicC c k P) - conicB c k P S ≠ 0) :
+    conicImplicit c k (conicHit sqrt c k P S) = 0 := by
+  rw [conicHit, conic_ray_quadratic]
+  simp only [conicHitS]
+  have hσ := hs _ hD
+  generalize sqrt (conicB c k P S * conicB c k P S - conicA c k S * conicC c k P) = σ at *
+  generalize conicA c k S = A at *
+  generalize conicB c k P S = B at *
+  generalize conicC c k P = C at *
+  field_simp
+  linear_combination C * hσ
+
+/-- a point of the implicit conic on the vertex branch (`1 − (1+κ)c z ≥ 0`) IS a point of the sag function the code evaluates
+(translated `conic_sag`): `z = cρ²/(1+φ)`.  With `conic_on_surface` (the converse): on that branch `G = 0 ⟺ z = sag(x, y)`, so the
+closed-form hit and the point Newton converges to (`F = z − sag = 0`) are the same point -/
+theorem conic_implicit_is_sag (sqrt : K → K) (hs : ∀ x, 0 ≤ x → sqrt x * sqrt x = x) (hs0 : ∀ x, 0 ≤ sqrt x)
+    (c k : K) (P : V3 K) (hG : conicImplicit c k P = 0) (hbr : 0 ≤ 1 - (1 + k) * c * P.z) :
+    P.z = Generated.C19.conicSag sqrt c k (P.x * P.x + P.y * P.y) := by
+  rw [(gen_conic sqrt c k 0 (P.x * P.x + P.y * P.y) 0).1]
+  have hu : phiSq c k (P.x * P.x + P.y * P.y) = (1 - (1 + k) * c * P.z) * (1 - (1 + k) * c * P.z) := by
+    simp only [phiSq, conicImplicit] at *
+    linear_combination (-(1 + k) * c) * hG
+  have hnn : 0 ≤ phiSq c k (P.x * P.x + P.y * P.y) := by rw [hu]; exact mul_self_nonneg _
+  have hφ : sqrt (phiSq c k (P.x * P.x + P.y * P.y)) = 1 - (1 + k) * c * P.z := by
+    have h1 := hs _ hnn
+    have h2 := hs0 (phiSq c k (P.x * P.x + P.y * P.y))
+    generalize sqrt (phiSq c k (P.x * P.x + P.y * P.y)) = φ at h1 h2 ⊢
+    rw [hu] at h1
+    have : (φ - (1 - (1 + k) * c * P.z)) * (φ + (1 - (1 + k) * c * P.z)) = 0 := by linear_combination h1
+    rcases mul_eq_zero.mp this with h | h
+    · linarith
+    · have : φ = 0 ∧ 1 - (1 + k) * c * P.z = 0 := ⟨by linarith, by linarith⟩
+      linarith [this.1, this.2]
+  rw [hφ]
+  have hd : 1 + (1 - (1 + k) * c * P.z) ≠ 0 := ne_of_gt (by linarith)
+  rw [conicSag, eq_div_iff hd]
+  simp only [conicImplicit] at hG
+  linear_combination -hG
+
+/-- PLANES — convergence proved, not trusted: for every ray that is not parallel to the plane, every `eps > 0` and every iteration
+budget ≥ 1, the Newton loop of `intersect` (model, with the code's stopping rule) stops in its FIRST pass and returns the exact
+intersection with `z = 0` and the normal `(−0, −0, 1)` -/
+theorem plane_intersect_converges (sqrt : K → K) (P0 S : V3 K) (eps : K) (fuel : Nat) (hm : S.z ≠ 0) (he : 0 < eps) :
+    ∃ P r, intersect sqrt ltK Shape.plane P0 S eps (fuel + 1) = some (P, r) ∧
+      P.z = 0 ∧ P.x = P0.x + (-P0.z / S.z) * S.x ∧ P.y = P0.y + (-P0.z / S.z) * S.y ∧ r = ⟨-0, -0, 1⟩ := by
+  have hz : (Model.C19.toVertexPlane P0 S).z = 0 := by
+    simp only [Model.C19.toVertexPlane, V3.add, V3.smul]; field_simp; ring
+  simp only [intersect, newton, newtonStep, sagNormal, sagGrad, normalOfGrad]
+  have hd : (0 : K) - ((V3.add (Model.C19.toVertexPlane P0 S) (V3.smul 0 S)).z - 0) / V3.dot S ⟨-0, -0, 1⟩ - 0 = 0 := by
+    simp only [V3.add, V3.smul, V3.dot, hz]; simp
+  simp only [hd]
+  have hsc : (1 : K) ≤ newtonScale ltK (V3.add (Model.C19.toVertexPlane P0 S) (V3.smul 0 S)) := by
+    simp only [newtonScale, ltK, decide_eq_true_eq]
+    split_ifs <;> first | exact le_refl _ | (rename_i h; exact le_of_lt ‹_›) | linarith
+  have : ltK (if ltK (0 : K) 0 = true then -(0 : K) else 0)
+      (eps * newtonScale ltK (V3.add (Model.C19.toVertexPlane P0 S) (V3.smul 0 S))) = true := by
+    simp only [ltK, lt_self_iff_false, decide_false, Bool.false_eq_true, if_false, decide_eq_true_eq]
+    exact mul_pos he (by linarith)
+  rw [if_pos this]
+  refine ⟨_, _, rfl, ?_, ?_, ?_, rfl⟩
+  · simp only [V3.add, V3.smul, hz]; simp
+  · simp only [V3.add, V3.smul, Model.C19.toVertexPlane]; ring
+  · simp only [V3.add, V3.smul, Model.C19.toVertexPlane]; ring
+
+/-- the same on the TRANSLATED Newton update: on a plane one update from ANY `s_j` lands on the exact root `s = 0` of the
+vertex-plane point, and started at `s = 0` (as `intersect` does) the step length is `0 < eps · scale` -/
+theorem plane_newton_one_step (P1 S : V3 K) (sj : K) (hz : P1.z = 0) (hm : S.z ≠ 0) :
+    Generated.C19.newtonNext abs P1 S sj 0 ⟨-0, -0, 1⟩ = 0 ∧ Generated.C19.newtonDelta abs P1 S 0 0 ⟨-0, -0, 1⟩ = 0 := by
+  constructor
+  · simp only [Generated.C19.newtonNext, V3.add, V3.smul, V3.dot, hz]
+    have : (0 + sj * S.z - 0) / (S.x * -0 + S.y * -0 + S.z * 1) = sj := by
+      rw [show S.x * -0 + S.y * -0 + S.z * 1 = S.z by ring, show (0 : K) + sj * S.z - 0 = sj * S.z by ring]
+      exact mul_div_cancel_right₀ sj hm
+    first
+      | (rw [this]; ring)
+      | (field_simp; ring)
+  · simp only [Generated.C19.newtonDelta, V3.add, V3.smul, V3.dot, hz]
+    simp
+
+/-- non-vacuity of `conic_closed_form_hit` / `conic_implicit_is_sag`: sphere `c = 1/5`, axial ray from `(3, 0, 0)`: `A = 1/5`,
+`B = −1`, `C = 9/5`, discriminant `16/25 = (4/5)²`, hit `z = 1 = sag(3)`, on the vertex branch -/
+example : let P : V3 ℚ := ⟨3, 0, 0⟩; let S : V3 ℚ := ⟨0, 0, 1⟩
+    conicB (1 / 5) 0 P S * conicB (1 / 5) 0 P S - conicA (1 / 5) 0 S * conicC (1 / 5) 0 P = 4 / 5 * (4 / 5) ∧
+    conicImplicit (1 / 5 : ℚ) 0 ⟨3, 0, 1⟩ = 0 ∧ (0 : ℚ) ≤ 1 - (1 + 0) * (1 / 5) * 1 := by
+  simp only [conicA, conicB, conicC, conicImplicit]; norm_num
+
+/-! ## session 3: whole-trace composition — unit direction cosines through any prescription -/
+
+/-- whatever the Newton loop of the model returns as the normal is a vector `(−F_x, −F_y, 1)`: its `z` component is 1, so it is never zero -/
+theorem newton_normal_z (sqrt : K → K) (lt : K → K → Bool) (sh : Shape K) (P1 S : V3 K) (eps : K) :
+    ∀ (fuel : Nat) (sj : K) (Pj r : V3 K), newton sqrt lt sh P1 S eps fuel sj = some (Pj, r) → r.z = 1 := by
+  intro fuel
+  induction fuel with
+  | zero => intro sj Pj r h; simp [newton] at h
+  | succ f ih =>
+    intro sj Pj r h
+    have hst : (newtonStep sqrt sh P1 S sj).2.1.z = 1 := by simp [newtonStep, sagNormal, normalOfGrad]
+    simp only [newton] at h
+    generalize newtonStep sqrt sh P1 S sj = st at h hst
+    obtain ⟨Pj', r', s'⟩ := st
+    simp only at h hst
+    split at h <;> split at h
+    all_goals first
+      | (have h2 := congrArg Prod.snd (Option.some.inj h); simp only at h2; rw [← h2]; exact hst)
+      | exact ih _ _ _ h
+
+/-- an orthogonal matrix preserves the squared length of a direction vector -/
+theorem mulVec_norm (R : M3 K) (hR : M3.mul (M3.transpose R) R = M3.one) (S : V3 K) :
+    V3.dot (M3.mulVec R S) (M3.mulVec R S) = V3.dot S S := by
+  rcases R with ⟨⟨a, b, c⟩, ⟨d, e, f⟩, ⟨g, h, i⟩⟩
+  rcases S with ⟨k, l, m⟩
+  simp only [M3.mul, M3.transpose, M3.one, M3.col0, M3.col1, M3.col2, V3.dot, M3.mk.injEq, V3.mk.injEq] at hR
+  obtain ⟨⟨h00, h01, h02⟩, ⟨h10, h11, h12⟩, ⟨h20, h21, h22⟩⟩ := hR
+  simp only [M3.mulVec, V3.dot]
+  linear_combination (k * k) * h00 + (k * l) * h01 + (k * m) * h02 + (l * k) * h10 + (l * l) * h11
+    + (l * m) * h12 + (m * k) * h20 + (m * l) * h21 + (m * m) * h22
+
+/-- a frame rotation that is orthogonal on both sides (`RᵀR = I` and `R Rᵀ = I`; either implies the other: `orthogonal_either_side`) -/
+def Orth (R : Option (M3 K)) : Prop :=
+  ∀ M, R = some M → M3.mul (M3.transpose M) M = M3.one ∧ M3.mul (M3.transpose (M3.transpose M)) (M3.transpose M) = M3.one
+
+/-- entering a surface frame keeps direction cosines normalised -/
+theorem toLocalS_norm (R : Option (M3 K)) (h : Orth R) (S : V3 K) : V3.dot (toLocalS R S) (toLocalS R S) = V3.dot S S := by
+  cases R with
+  | none => rfl
+  | some M => exact mulVec_norm M (h M rfl).1 S
+
+/-- leaving a surface frame (through `Rᵀ`, as `raytrace` does) keeps direction cosines normalised -/
+theorem toGlobalS_norm (R : Option (M3 K)) (h : Orth R) (S : V3 K) : V3.dot (toGlobalS R S) (toGlobalS R S) = V3.dot S S := by
+  cases R with
+  | none => rfl
+  | some M => exact mulVec_norm (M3.transpose M) (h M rfl).2 S
+
+/-- ONE SURFACE of the model tracer, any kind (mirror, refracting, evaluation), any shape, any frame: a unit direction in gives a
+unit direction out (global frame), the local incident direction is the rotated input and the normal handed on is non-zero -/
+theorem traceOne_unit (sqrt : K → K) (hs : ∀ x, 0 ≤ x → sqrt x * sqrt x = x) (eps : K) (maxiter : Nat)
+    (sf : Surface K) (P S : V3 K) (n : K) (h : Hit K)
+    (ht : traceOne sqrt ltK eps maxiter sf P S n = some h) (hS : V3.dot S S = 1) (hR : Orth sf.R)
+    (hrefr : sf.kind = Kind.refract → sf.n ≠ 0 ∧ 0 ≤ radicand n sf.n h.Sloc h.r) :
+    V3.dot h.Sg h.Sg = 1 ∧ h.Sloc = toLocalS sf.R S ∧ h.r.z = 1 := by
+  unfold traceOne at ht
+  simp only at ht
+  cases hI : intersect sqrt ltK sf.shape (toLocalP sf.P sf.R P) (toLocalS sf.R S) eps maxiter with
+  | none => rw [hI] at ht; simp at ht
+  | some pr =>
+    obtain ⟨Pj, r⟩ := pr
+    rw [hI] at ht
+    have hz : r.z = 1 := newton_normal_z sqrt ltK sf.shape _ _ eps maxiter 0 Pj r hI
+    have hr : r ≠ ⟨0, 0, 0⟩ := by
+      intro e; rw [e] at hz; simp at hz
+    have hS0 : V3.dot (toLocalS sf.R S) (toLocalS sf.R S) = 1 := by rw [toLocalS_norm _ hR, hS]
+    simp only [Option.some.injEq] at ht
+    subst ht
+    refine ⟨?_, rfl, hz⟩
+    simp only
+    rw [toGlobalS_norm _ hR]
+    cases hk : sf.kind with
+    | reflect =>
+      simp only
+      have hp := normSq_pos hr
+      rcases hloc : toLocalS sf.R S with ⟨k, l, m⟩
+      rw [hloc] at hS0
+      rcases r with ⟨a, b, c⟩
+      simp only [Model.C19.reflect, V3.dot, V3.sub, V3.smul] at *
+      have h3 : a * a + b * b + c * c ≠ 0 := ne_of_gt hp
+      field_simp
+      linear_combination (a * a + b * b + c * c) ^ 2 * hS0
+    | eval => simpa only using hS0
+    | refract =>
+      simp only [hk] at hrefr ⊢
+      obtain ⟨hn', hrad⟩ := hrefr trivial
+      have hσ := hs _ hrad
+      by_cases hc : V3.dot r (toLocalS sf.R S) < 0
+      · have hσ' : (-sqrt (radicand n sf.n (toLocalS sf.R S) r)) * (-sqrt (radicand n sf.n (toLocalS sf.R S) r))
+            = radicand n sf.n (toLocalS sf.R S) r := by rw [neg_mul_neg]; exact hσ
+        have := (refract_core n sf.n _ (toLocalS sf.R S) r hr hS0 hn' hσ').1
+        simpa only [Model.C19.refract, ltK, decide_eq_true_eq, hc, if_true, radicand] using this
+      · have := (refract_core n sf.n _ (toLocalS sf.R S) r hr hS0 hn' hσ).1
+        simpa only [Model.C19.refract, ltK, decide_eq_true_eq, hc, if_false, radicand] using this
+/-- below the critical angle at every refracting surface of the prescription, with the index in front of each surface threaded as
+the tracer threads it -/
+def NoTIR : List (Surface K) → List (Hit K) → K → Prop
+  | [], [], _ => True
+  | sf :: ss, h :: hs, n => (sf.kind = Kind.refract → sf.n ≠ 0 ∧ 0 ≤ radicand n sf.n h.Sloc h.r) ∧ NoTIR ss hs h.n
+  | _, _, _ => False
+
+/-- WHOLE-TRACE COMPOSITION: for every prescription (any number of surfaces, any mix of mirrors / refracting / evaluation surfaces,
+planes / conics / off-axis conics, tilted and decentred orthogonal frames) the model tracer returns one hit per surface and EVERY
+outgoing direction has unit length, provided the ray starts with unit direction cosines and stays below the critical angle at each
+refracting surface (indices threaded as the tracer threads them) — by induction over the surface list -/
+theorem trace_unit_directions (sqrt : K → K) (hsq : ∀ x, 0 ≤ x → sqrt x * sqrt x = x) (eps : K) (maxiter : Nat) :
+    ∀ (surfs : List (Surface K)) (P S : V3 K) (n : K) (hits : List (Hit K)),
+      trace sqrt ltK eps maxiter surfs P S n = some hits → V3.dot S S = 1 → (∀ sf ∈ surfs, Orth sf.R) →
+      NoTIR surfs hits n → hits.length = surfs.length ∧ ∀ h ∈ hits, V3.dot h.Sg h.Sg = 1 := by
+  intro surfs
+  induction surfs with
+  | nil =>
+    intro P S n hits ht _ _ _
+    simp only [trace, Option.some.injEq] at ht
+    subst ht
+    simp
+  | cons sf ss ih =>
+    intro P S n hits ht hS hO hN
+    simp only [trace] at ht
+    cases h1 : traceOne sqrt ltK eps maxiter sf P S n with
+    | none => rw [h1] at ht; simp at ht
+    | some h =>
+      rw [h1] at ht
+      simp only at ht
+      cases h2 : trace sqrt ltK eps maxiter ss h.Pg h.Sg h.n with
+      | none => rw [h2] at ht; simp at ht
+      | some hs' =>
+        rw [h2] at ht
+        simp only [Option.some.injEq] at ht
+        subst ht
+        simp only [NoTIR] at hN
+        have u := traceOne_unit sqrt hsq eps maxiter sf P S n h h1 hS (hO sf (List.mem_cons_self ..)) hN.1
+        have r := ih h.Pg h.Sg h.n hs' h2 u.1 (fun sf' hm => hO sf' (List.mem_cons_of_mem _ hm)) hN.2
+        refine ⟨by simp [r.1], ?_⟩
+        intro h' hm
+        rcases List.mem_cons.mp hm with e | e
+        · rw [e]; exact u.1
+        · exact r.2 h' e
+/-- non-vacuity of `trace_unit_directions` / `trace_snell` / `trace_on_surface`: an axial ray onto a plane mirror is traced (convergence by `plane_intersect_converges`), all hypotheses hold -/
+theorem plane_mirror_traced : ∃ hits, trace Real.sqrt ltK (1 / 10 : ℝ) 5 [⟨Kind.reflect, ⟨0, 0, 0⟩, none, Shape.plane, 1⟩] ⟨0, 0, -1⟩ ⟨0, 0, 1⟩ 1 = some hits ∧
+    V3.dot (⟨0, 0, 1⟩ : V3 ℝ) ⟨0, 0, 1⟩ = 1 ∧ Orth (none : Option (M3 ℝ)) ∧
+    NoTIR [⟨Kind.reflect, ⟨0, 0, 0⟩, none, Shape.plane, 1⟩] hits 1 := by
+  obtain ⟨Pj, r, hI, _⟩ := plane_intersect_converges Real.sqrt (toLocalP (⟨0, 0, 0⟩ : V3 ℝ) none ⟨0, 0, -1⟩) (toLocalS none ⟨0, 0, 1⟩)
+    (1 / 10) 4 (by simp [toLocalS]) (by norm_num)
+  have hI' : intersect Real.sqrt ltK Shape.plane (toLocalP (⟨0, 0, 0⟩ : V3 ℝ) none ⟨0, 0, -1⟩) (toLocalS none ⟨0, 0, 1⟩) (1 / 10) 5
+      = some (Pj, r) := hI
+  cases ht : trace Real.sqrt ltK (1 / 10 : ℝ) 5 [⟨Kind.reflect, ⟨0, 0, 0⟩, none, Shape.plane, 1⟩] ⟨0, 0, -1⟩ ⟨0, 0, 1⟩ 1 with
+  | none => simp only [trace, traceOne, hI', reduceCtorEq] at ht
+  | some hits =>
+    have hO : Orth (none : Option (M3 ℝ)) := by
+      intro M h
+      cases h
+    refine ⟨hits, rfl, by simp [V3.dot], hO, ?_⟩
+    simp only [trace, traceOne, hI', Option.some.injEq] at ht
+    subst ht
+    simp [NoTIR]
+
+/-! ## second pass: Snell / reflection / on-surface through the whole trace, index bookkeeping -/
+
+/-- what the tracer does at ONE surface, stated on the recorded hit: frame bookkeeping, law of reflection at a mirror, Snell's law in
+vector form at a refracting surface with the index in front (`n`) and behind (`sf.n`), nothing at an evaluation surface, and the index
+carried on to the next surface -/
+def SurfaceLaw (sf : Surface K) (n : K) (h : Hit K) : Prop :=
+  h.Sg = toGlobalS sf.R h.Sout ∧ h.Pg = toGlobalP sf.P sf.R h.Ploc ∧
+  (sf.kind = Kind.reflect → V3.dot h.Sout h.r = -V3.dot h.Sloc h.r ∧ V3.cross (V3.sub h.Sout h.Sloc) h.r = ⟨0, 0, 0⟩ ∧ h.n = n) ∧
+  (sf.kind = Kind.refract → V3.smul sf.n (V3.cross h.Sout h.r) = V3.smul n (V3.cross h.Sloc h.r) ∧ h.n = sf.n) ∧
+  (sf.kind = Kind.eval → h.Sout = h.Sloc ∧ h.n = n)
+
+/-- ONE SURFACE of the model tracer obeys `SurfaceLaw`: mirror law about the normal actually used, vector Snell law with the threaded
+indices, frame bookkeeping, and the index handed on (unchanged by mirrors and evaluation surfaces, `sf.n` after a refracting surface) -/
+theorem traceOne_laws (sqrt : K → K) (hs : ∀ x, 0 ≤ x → sqrt x * sqrt x = x) (eps : K) (maxiter : Nat)
+    (sf : Surface K) (P S : V3 K) (n : K) (h : Hit K)
+    (ht : traceOne sqrt ltK eps maxiter sf P S n = some h) (hS : V3.dot S S = 1) (hR : Orth sf.R)
+    (hrefr : sf.kind = Kind.refract → sf.n ≠ 0 ∧ 0 ≤ radicand n sf.n h.Sloc h.r) :
+    SurfaceLaw sf n h := by
+  have hu := traceOne_unit sqrt hs eps maxiter sf P S n h ht hS hR hrefr
+  unfold traceOne at ht
+  simp only at ht
+  cases hI : intersect sqrt ltK sf.shape (toLocalP sf.P sf.R P) (toLocalS sf.R S) eps maxiter with
+  | none => rw [hI] at ht; simp at ht
+  | some pr =>
+    obtain ⟨Pj, r⟩ := pr
+    rw [hI] at ht
+    simp only [Option.some.injEq] at ht
+    have hz : r.z = 1 := newton_normal_z sqrt ltK sf.shape _ _ eps maxiter 0 Pj r hI
+    have hr : r ≠ ⟨0, 0, 0⟩ := by
+      intro e; rw [e] at hz; simp at hz
+    have hS0 : V3.dot (toLocalS sf.R S) (toLocalS sf.R S) = 1 := by rw [toLocalS_norm _ hR, hS]
+    subst ht
+    refine ⟨rfl, rfl, ?_, ?_, ?_⟩
+    · intro hk
+      simp only [hk]
+      have := reflect_mirror (toLocalS sf.R S) r hr
+      rw [gen_reflect] at this
+      exact ⟨this.1, this.2, by first | rfl | trivial⟩
+    · intro hk
+      simp only [hk] at hrefr ⊢
+      obtain ⟨hn', hrad⟩ := hrefr trivial
+      have hσ := hs _ hrad
+      refine ⟨?_, by first | rfl | trivial⟩
+      by_cases hc : V3.dot r (toLocalS sf.R S) < 0
+      · have hσ' : (-sqrt (radicand n sf.n (toLocalS sf.R S) r)) * (-sqrt (radicand n sf.n (toLocalS sf.R S) r))
+            = radicand n sf.n (toLocalS sf.R S) r := by rw [neg_mul_neg]; exact hσ
+        have := (refract_core n sf.n _ (toLocalS sf.R S) r hr hS0 hn' hσ').2.1
+        simpa only [Model.C19.refract, ltK, decide_eq_true_eq, hc, if_true, radicand] using this
+      · have := (refract_core n sf.n _ (toLocalS sf.R S) r hr hS0 hn' hσ).2.1
+        simpa only [Model.C19.refract, ltK, decide_eq_true_eq, hc, if_false, radicand] using this
+    · intro hk
+      simp only [hk]
+      exact ⟨by first | rfl | trivial, by first | rfl | trivial⟩
+
+/-- the per-surface laws along a whole prescription, the index in front of each surface being the one the previous hit carries -/
+def TraceLaws : List (Surface K) → List (Hit K) → K → Prop
+  | [], [], _ => True
+  | sf :: ss, h :: hs, n => SurfaceLaw sf n h ∧ TraceLaws ss hs h.n
+  | _, _, _ => False
+
+/-- WHOLE TRACE — SNELL AT EVERY REFRACTING SURFACE AND THE LAW OF REFLECTION AT EVERY MIRROR, through any prescription (any number / mix
+of surfaces, shapes, orthogonal frames), by induction over the surface list: `n_before (S×r) = n_after (S'×r)` with `n_before` the index
+the previous hit carries (so a mirror inside glass leaves the index of the glass in force), `S'·r = −S·r` and `(S'−S)×r = 0` at mirrors.
+Hypotheses: unit start direction, orthogonal frames, below the critical angle (`NoTIR`); `r` is the vector the Newton loop returned -/
+theorem trace_snell (sqrt : K → K) (hsq : ∀ x, 0 ≤ x → sqrt x * sqrt x = x) (eps : K) (maxiter : Nat) :
+    ∀ (surfs : List (Surface K)) (P S : V3 K) (n : K) (hits : List (Hit K)),
+      trace sqrt ltK eps maxiter surfs P S n = some hits → V3.dot S S = 1 → (∀ sf ∈ surfs, Orth sf.R) →
+      NoTIR surfs hits n → TraceLaws surfs hits n := by
+  intro surfs
+  induction surfs with
+  | nil =>
+    intro P S n hits ht _ _ _
+    simp only [trace, Option.some.injEq] at ht
+    subst ht
+    simp [TraceLaws]
+  | cons sf ss ih =>
+    intro P S n hits ht hS hO hN
+    simp only [trace] at ht
+    cases h1 : traceOne sqrt ltK eps maxiter sf P S n with
+    | none => rw [h1] at ht; simp at ht
+    | some h =>
+      rw [h1] at ht
+      simp only at ht
+      cases h2 : trace sqrt ltK eps maxiter ss h.Pg h.Sg h.n with
+      | none => rw [h2] at ht; simp at ht
+      | some hs' =>
+        rw [h2] at ht
+        simp only [Option.some.injEq] at ht
+        subst ht
+        simp only [NoTIR] at hN
+        have u := traceOne_unit sqrt hsq eps maxiter sf P S n h h1 hS (hO sf (List.mem_cons_self ..)) hN.1
+        have l := traceOne_laws sqrt hsq eps maxiter sf P S n h h1 hS (hO sf (List.mem_cons_self ..)) hN.1
+        exact ⟨l, ih h.Pg h.Sg h.n hs' h2 u.1 (fun sf' hm => hO sf' (List.mem_cons_of_mem _ hm)) hN.2⟩
+/-- POST-CONDITION of the model's Newton loop, by induction over the iteration budget (convergence is NOT claimed): whatever it returns is
+a point `P1 + s·S` of the ray, the normal vector of the surface at that point, and — when `F' = S·r ≠ 0` — a sag residual below
+`eps · max(1, |P|_∞) · |F'|` -/
+theorem newton_model_postcondition (sqrt : K → K) (sh : Shape K) (P1 S : V3 K) (eps : K) :
+    ∀ (fuel : Nat) (sj : K) (Pj r : V3 K), newton sqrt ltK sh P1 S eps fuel sj = some (Pj, r) →
+      ∃ s, Pj = V3.add P1 (V3.smul s S) ∧ r = (sagNormal sqrt sh Pj.x Pj.y).2 ∧
+        (V3.dot S r ≠ 0 →
+          |Pj.z - (sagNormal sqrt sh Pj.x Pj.y).1| < eps * newtonScale ltK Pj * |V3.dot S r|) := by
+  intro fuel
+  induction fuel with
+  | zero => intro sj Pj r h; simp [newton] at h
+  | succ f ih =>
+    intro sj Pj r h
+    simp only [newton] at h
+    generalize hstep : newtonStep sqrt sh P1 S sj = st at h
+    obtain ⟨Pj', r', s'⟩ := st
+    simp only [newtonStep, Prod.mk.injEq] at hstep
+    obtain ⟨hP, hr, hs'⟩ := hstep
+    simp only at h
+    have stop : |s' - sj| < eps * newtonScale ltK Pj' → some (Pj', r') = some (Pj, r) →
+        ∃ s, Pj = V3.add P1 (V3.smul s S) ∧ r = (sagNormal sqrt sh Pj.x Pj.y).2 ∧
+          (V3.dot S r ≠ 0 → |Pj.z - (sagNormal sqrt sh Pj.x Pj.y).1| < eps * newtonScale ltK Pj * |V3.dot S r|) := by
+      intro hlt he
+      have e := Option.some.inj he
+      have e1 : Pj' = Pj := congrArg Prod.fst e
+      have e2 : r' = r := congrArg Prod.snd e
+      subst e1 e2
+      refine ⟨sj, hP.symm, ?_, ?_⟩
+      · rw [← hr, hP]
+      · intro hF
+        have hpos : 0 < |V3.dot S r'| := abs_pos.mpr hF
+        have : |s' - sj| = |Pj'.z - (sagNormal sqrt sh Pj'.x Pj'.y).1| / |V3.dot S r'| := by
+          rw [← hs', ← hr, hP, sub_sub_cancel_left, abs_neg, abs_div]
+        rw [this, div_lt_iff₀ hpos] at hlt
+        exact hlt
+    split at h <;> split at h
+    · rename_i hneg hst
+      simp only [ltK, decide_eq_true_eq] at hneg hst
+      exact stop (by rw [abs_of_neg hneg]; exact hst) h
+    · exact ih _ _ _ h
+    · rename_i hneg hst
+      simp only [ltK, decide_eq_true_eq, not_lt] at hneg hst
+      exact stop (by rw [abs_of_nonneg hneg]; exact hst) h
+    · exact ih _ _ _ h
+/-- Newton POST-CONDITION at one recorded hit (NOT convergence): the hit lies on the local incident ray through the vertex-plane point, the
+recorded normal is the surface normal vector at the hit, and the sag residual is below `eps · max(1, |P|_∞) · |S·r|` -/
+def OnSurfaceLaw (sqrt : K → K) (eps : K) (sf : Surface K) (P S : V3 K) (h : Hit K) : Prop :=
+  h.Sloc = toLocalS sf.R S ∧
+  ∃ s, h.Ploc = V3.add (Model.C19.toVertexPlane (toLocalP sf.P sf.R P) (toLocalS sf.R S)) (V3.smul s (toLocalS sf.R S)) ∧
+    h.r = (sagNormal sqrt sf.shape h.Ploc.x h.Ploc.y).2 ∧
+    (V3.dot h.Sloc h.r ≠ 0 →
+      |h.Ploc.z - (sagNormal sqrt sf.shape h.Ploc.x h.Ploc.y).1| < eps * newtonScale ltK h.Ploc * |V3.dot h.Sloc h.r|)
+
+/-- the post-condition at one surface of the model tracer -/
+theorem traceOne_on_surface (sqrt : K → K) (eps : K) (maxiter : Nat) (sf : Surface K) (P S : V3 K) (n : K) (h : Hit K)
+    (ht : traceOne sqrt ltK eps maxiter sf P S n = some h) : OnSurfaceLaw sqrt eps sf P S h := by
+  unfold traceOne at ht
+  simp only at ht
+  cases hI : intersect sqrt ltK sf.shape (toLocalP sf.P sf.R P) (toLocalS sf.R S) eps maxiter with
+  | none => rw [hI] at ht; simp at ht
+  | some pr =>
+    obtain ⟨Pj, r⟩ := pr
+    rw [hI] at ht
+    simp only [Option.some.injEq] at ht
+    obtain ⟨s, h1, h2, h3⟩ := newton_model_postcondition sqrt sf.shape _ _ eps maxiter 0 Pj r hI
+    subst ht
+    exact ⟨rfl, s, h1, h2, h3⟩
+
+/-- the post-condition along a whole prescription: each surface is met by the ray the previous hit sends on (global `Pg`, `Sg`) -/
+def TraceOnSurface (sqrt : K → K) (eps : K) : List (Surface K) → List (Hit K) → V3 K → V3 K → Prop
+  | [], [], _, _ => True
+  | sf :: ss, h :: hs, P, S => OnSurfaceLaw sqrt eps sf P S h ∧ TraceOnSurface sqrt eps ss hs h.Pg h.Sg
+  | _, _, _, _ => False
+
+/-- WHOLE TRACE — ON-SURFACE UNDER THE NEWTON POST-CONDITION (clearly: IF the tracer returns hits, i.e. the iteration stopped at every
+surface; convergence itself is proved only for planes, compared with the closed form for conics): every recorded hit of every
+prescription lies on the ray sent on by the previous hit, within `eps·scale·|F'|` of the surface, with the true normal vector there -/
+theorem trace_on_surface (sqrt : K → K) (eps : K) (maxiter : Nat) :
+    ∀ (surfs : List (Surface K)) (P S : V3 K) (n : K) (hits : List (Hit K)),
+      trace sqrt ltK eps maxiter surfs P S n = some hits → TraceOnSurface sqrt eps surfs hits P S := by
+  intro surfs
+  induction surfs with
+  | nil =>
+    intro P S n hits ht
+    simp only [trace, Option.some.injEq] at ht
+    subst ht
+    simp [TraceOnSurface]
+  | cons sf ss ih =>
+    intro P S n hits ht
+    simp only [trace] at ht
+    cases h1 : traceOne sqrt ltK eps maxiter sf P S n with
+    | none => rw [h1] at ht; simp at ht
+    | some h =>
+      rw [h1] at ht
+      simp only at ht
+      cases h2 : trace sqrt ltK eps maxiter ss h.Pg h.Sg h.n with
+      | none => rw [h2] at ht; simp at ht
+      | some hs' =>
+        rw [h2] at ht
+        simp only [Option.some.injEq] at ht
+        subst ht
+        exact ⟨traceOne_on_surface sqrt eps maxiter sf P S n h h1, ih h.Pg h.Sg h.n hs' h2⟩
+/-- the index carried to the next surface, translated from the `if surf.typ == REFLECT / elif REFRACT / else` dispatch of `raytrace`:
+unchanged by a mirror (NOT reset to the ambient index), the surface's index after a refraction, unchanged by an evaluation surface -/
+theorem gen_index_threading (a n n' : K) :
+    Generated.C19.indexAfter true false a n n' = n ∧ Generated.C19.indexAfter false true a n n' = n' ∧
+    Generated.C19.indexAfter false false a n n' = n := by
+  refine ⟨?_, ?_, ?_⟩ <;> simp [Generated.C19.indexAfter]
+
+/-- the index bookkeeping of the model tracer (part of `SurfaceLaw`) IS the translated one, whatever the ambient index -/
+theorem surface_index (sf : Surface K) (n a : K) (h : Hit K) (sl : SurfaceLaw sf n h) :
+    h.n = Generated.C19.indexAfter (decide (sf.kind = Kind.reflect)) (decide (sf.kind = Kind.refract)) a n sf.n := by
+  obtain ⟨_, _, h1, h2, h3⟩ := sl
+  cases hk : sf.kind with
+  | reflect => simp only [hk, decide_true, reduceCtorEq, decide_false]; rw [(gen_index_threading a n sf.n).1]; exact (h1 hk).2.2
+  | refract => simp only [hk, decide_true, reduceCtorEq, decide_false]; rw [(gen_index_threading a n sf.n).2.1]; exact (h2 hk).2
+  | eval => simp only [hk, decide_true, reduceCtorEq, decide_false]; rw [(gen_index_threading a n sf.n).2.2]; exact (h3 hk).2
+
+/-- non-vacuity: the hypotheses of `trace_snell` and `trace_on_surface` are met by the traced plane mirror, and the conclusions follow -/
+example : ∃ hits, TraceLaws [(⟨Kind.reflect, ⟨0, 0, 0⟩, none, Shape.plane, 1⟩ : Surface ℝ)] hits 1 ∧
+    TraceOnSurface Real.sqrt (1 / 10 : ℝ) [⟨Kind.reflect, ⟨0, 0, 0⟩, none, Shape.plane, 1⟩] hits ⟨0, 0, -1⟩ ⟨0, 0, 1⟩ := by
+  obtain ⟨hits, ht, hS, hO, hN⟩ := plane_mirror_traced
+  refine ⟨hits, trace_snell Real.sqrt (fun _ h => Real.mul_self_sqrt h) _ _ _ _ _ _ hits ht hS ?_ hN,
+    trace_on_surface Real.sqrt _ _ _ _ _ _ hits ht⟩
+  intro sf hm
+  rw [List.mem_singleton] at hm
+  rw [hm]
+  exact hO
+
 /-! ## non-vacuity: the hypotheses are met by the real square root and by concrete rays -/
 
 example : (∀ x : ℝ, 0 ≤ x → Real.sqrt x * Real.sqrt x = x) ∧ (∀ x : ℝ, 0 ≤ Real.sqrt x) :=
